@@ -342,6 +342,7 @@ def decide(pid, tier, seed, P, vres, kres, kmeta, vac, t0, evdir):
                 # the tree no longer builds under the Kani compiler (a construct it cannot translate, or an internal error): the
                 # harnesses of this group cannot decide; let the executable contract attached to a harness file decide on the real code
                 for n_ in m.get('files', []):
+                    n_ = n_['file'] if isinstance(n_, dict) else n_
                     try:
                         hf_ = kunit.parse_harness_file(os.path.join(kunit.HARNESS_DIR, os.path.basename(n_)))
                     except Exception:
